@@ -107,15 +107,25 @@ func formatExpr(ctx *formatCtx, expr ast.Expr, ref *ast.Expr) {
 		formatExpr(ctx, v.Key, &v.Key)
 		formatExpr(ctx, v.Value, &v.Value)
 	case *ast.FuncLit:
+		old := ctx.enterBlock()
 		formatFuncType(ctx, v.Type)
+		ctx.insertFields(v.Type.Params)
+		ctx.insertFields(v.Type.Results)
 		formatBlockStmt(ctx, v.Body)
+		ctx.leaveBlock(old)
 	case *ast.TypeAssertExpr:
 		formatExpr(ctx, v.X, &v.X)
 		formatType(ctx, v.Type, &v.Type)
 	case *ast.LambdaExpr:
+		old := ctx.enterBlock()
+		ctx.insertIdents(v.Lhs)
 		formatExprs(ctx, v.Rhs)
+		ctx.leaveBlock(old)
 	case *ast.LambdaExpr2:
+		old := ctx.enterBlock()
+		ctx.insertIdents(v.Lhs)
 		formatBlockStmt(ctx, v.Body)
+		ctx.leaveBlock(old)
 	case *ast.RangeExpr:
 		formatRangeExpr(ctx, v)
 	case *ast.ComprehensionExpr:
@@ -154,6 +164,7 @@ func formatForPhrases(ctx *formatCtx, fors []*ast.ForPhrase) {
 
 func formatForPhrase(ctx *formatCtx, v *ast.ForPhrase) {
 	formatExpr(ctx, v.X, &v.X)
+	ctx.insertIdents([]*ast.Ident{v.Key, v.Value})
 	formatStmt(ctx, v.Init)
 	formatExpr(ctx, v.Cond, &v.Cond)
 }
@@ -270,6 +281,9 @@ func formatExprStmt(ctx *formatCtx, v *ast.ExprStmt) {
 func formatAssignStmt(ctx *formatCtx, v *ast.AssignStmt) {
 	formatExprs(ctx, v.Lhs)
 	formatExprs(ctx, v.Rhs)
+	if isDefine(v.Tok) {
+		ctx.insertExprs(v.Lhs...)
+	}
 }
 
 func formatSwitchStmt(ctx *formatCtx, v *ast.SwitchStmt) {
@@ -307,6 +321,9 @@ func formatRangeStmt(ctx *formatCtx, v *ast.RangeStmt) {
 	formatExpr(ctx, v.Key, &v.Key)
 	formatExpr(ctx, v.Value, &v.Value)
 	formatExpr(ctx, v.X, &v.X)
+	if isDefine(v.Tok) {
+		ctx.insertExprs(v.Key, v.Value)
+	}
 	formatBlockStmt(ctx, v.Body)
 }
 
